@@ -229,6 +229,7 @@ func runC05b(c *Ctx) {
 		<-done
 	}
 	simrt.WaitQuiescent("c05b-traffic-done")
+	c.DisarmDrops()
 	for _, cl := range clients {
 		cl.Resume()
 	}
